@@ -106,6 +106,12 @@ def _facts(t, ctx):
     """what a Template says about itself"""
     out = {}
     out["render"] = _outcome(lambda: t.render(**ctx))
+    if out["render"].startswith("EXC"):
+        # the text of the error (compared between hash seeds on the same path only)
+        try:
+            t.render(**ctx)
+        except BaseException as e:  # noqa
+            out["render_msg"] = re.sub(r"0x[0-9a-fA-F]+", "0x", str(e))[:200]
     try:
         out["source"] = t.source
     except BaseException as e:  # noqa
@@ -213,7 +219,52 @@ def run_item(item, workdir, paths):
             return os.path.join(alt, re.sub(r"\W", "_", uri) + "_x.py")
 
         L = lk(directories=[src], modulename_callable=mc_)
-        res["modulename_callable"] = {"render": _outcome(lambda: L.get_template(main).render(**ctx))}
+        try:
+            res["modulename_callable"] = _facts(L.get_template(main), ctx)
+        except BaseException as e:  # noqa
+            res["modulename_callable"] = {"render": "EXC:" + type(e).__name__}
+
+        # the same with module paths spelled relatively (to the current directory): the module is registered
+        # under the spelling it was given, whatever the import system calls the file
+        def mcrel(filename, uri):
+            return os.path.relpath(os.path.join(alt, "rel", re.sub(r"\W", "_", uri) + "_r.py"))
+
+        L = lk(directories=[src], modulename_callable=mcrel)
+        try:
+            res["modulename_relative"] = _facts(L.get_template(main), ctx)
+        except BaseException as e:  # noqa
+            res["modulename_relative"] = {"render": "EXC:" + type(e).__name__}
+        try:
+            from mako.template import Template
+
+            L = lk(directories=[src])
+            relmod = os.path.relpath(os.path.join(alt, "mf", "main_mf.py"))
+            os.makedirs(os.path.dirname(os.path.abspath(relmod)), exist_ok=True)
+            tkw = {k: v for k, v in kw.items() if k not in ("directories", "module_directory", "modulename_callable", "collection_size", "filesystem_checks")}
+            tmf = Template(filename=os.path.join(src, main.lstrip("/")), uri=main, lookup=L, module_filename=relmod, **tkw)
+            res["module_filename_relative"] = _facts(tmf, ctx)
+        except BaseException as e:  # noqa
+            res["module_filename_relative"] = {"render": "EXC:" + type(e).__name__}
+        # the documented ModuleTemplate recipe: the generated module written out, imported as an ordinary
+        # Python module from its file, wrapped with its sources
+        try:
+            import importlib.util
+
+            from mako.template import ModuleTemplate
+
+            L = lk(directories=[src])
+            t0 = L.get_template(main)
+            mpath = os.path.join(alt, "recipe", "mymodule_%s.py" % re.sub(r"\W", "_", main))
+            os.makedirs(os.path.dirname(mpath), exist_ok=True)
+            with open(mpath, "w", encoding="utf-8") as f:
+                f.write(t0.code)
+            spec = importlib.util.spec_from_file_location("mymodule_" + re.sub(r"\W", "_", main), mpath)
+            mod = importlib.util.module_from_spec(spec)
+            spec.loader.exec_module(mod)
+            mt2 = ModuleTemplate(mod, module_source=t0.code, template_source=t0.source, lookup=L, template_filename=t0.filename)
+            res["moduletemplate_file"] = _facts(mt2, ctx)
+        except BaseException as e:  # noqa
+            res["moduletemplate_file"] = {"render": "EXC:" + type(e).__name__}
     if "out-enc" in paths:
         # bytes-producing paths with stateful codecs: render() must be render_unicode() encoded once
         out = {}
